@@ -813,6 +813,16 @@ def run(ctx: Ctx, rep: Report, tier: str) -> None:
     rejected_address_changes_nothing(ctx, sub16)
     rejected_leaves_unchanged(ctx, sub16, rid="R03.18", targets=(("Option.line.setter", ("_line",)),), what="the new option text over the old flag and log lists: the entry renders tokens its own reader refuses", inp="o = Option('log'); o.line = 'ack time-range WORK'  # ValueError; o.line renders the refused text")
     rep.absorb(sub16, "R06.16")
+    # R06.17 the text an object renders is read back under the switches the object carries: the software version is
+    # handed on wherever the platform is (generators: C09 R09.16; the blocks Acl.group builds: C16 R16.24) - an entry that
+    # carries version 0 but renders the names of version 15 does not re-parse to itself
+    from .c09 import version_travels_with_platform
+    from .c16 import blocks_get_acl_settings
+
+    sub17 = Report("C06")
+    version_travels_with_platform(ctx, sub17)
+    blocks_get_acl_settings(ctx, sub17)
+    rep.absorb(sub17, "R06.17")
     sub = Report("C06")
     orders = c01.r01_1(ctx, sub)
     c01.r01_2(ctx, sub, orders)
